@@ -10,7 +10,7 @@ LEVEL = "exploration"
 TECHNIQUE = "Hypothesis-generated intact payloads x metafiles from the tool's five creators and from an independent conformant encoder (shuffled v1 order, aligned v1, hybrid with/without trailing pad, v2 single file without info.length) x content path root/parent; oracle: Checker.results() == 100 ; deterministic large-piece grid (2 MiB / 32 MiB pieces)"
 RULE = ("Cases: generated tree with non-empty total payload (any content incl. all-zero files, empty files, files ending on piece "
         "boundaries, symlinks, a file whose pieces root / piece string is valid UTF-8) x piece length x metafile source (own: TorrentFile plain or aligned - incl. a payload that really contains a file named like the creator's padding entry -, TorrentAssembler v2/hybrid, TorrentFileV2, TorrentFileHybrid; "
-        "ref: reference encoder v1 sorted/shuffled order, aligned, hybrid with/without trailing pad, v2 single file with/without "
+        "ref: reference encoder v1 sorted/shuffled order, aligned to one, two or four piece lengths (pads longer than the room left in their piece), hybrid with/without trailing pad, v2 single file with/without "
         "info.length) x content path in {payload root, its parent, a symlink carrying the name, '.' from inside the root, root/., relative}. The reference verifier must itself report 100% (else harness "
         "error). Oracle: Checker(metafile, path).results() == 100 exactly. Non-trivial: pieces straddle files, or an empty file is "
         "present, or a file ends exactly on a piece boundary, or the metafile is reference-encoded. Distinct = distinct canonical case JSON.")
